@@ -1,0 +1,11 @@
+//go:build verif
+
+package routers
+
+// Assumed contract for the Router interface as seen by its clients (C14): the verdict of
+// FindRoute is an abstract predicate of the request; the concrete routers are verified against
+// their own contracts (C09).
+
+//@ spec routeFound(r *http.Request) bool
+//@ iface (Router).FindRoute (self, req)
+//@   ensures (result.2 == nil) <==> routeFound(req)
